@@ -52,10 +52,10 @@ package ocsp
 //@   ensures err == nil ==> ret != nil
 
 //@ func OCSPRevocationChecker.filterHTTPOCSPServers
-//@   props C02
+//@   props C02 C03
 //@   assigns fresh:E.string
-//@   ensures[C02] only_http: forall k int :: 0 <= k && k < len(ret) ==> hasprefix(lower(ret[k]), "http")
-//@   ensures[C02] every_http_responder_kept: (exists i int :: 0 <= i && i < len(ocspServerList) && hasprefix(lower(ocspServerList[i]), "http")) ==> len(ret) > 0
+//@   ensures[C02,C03] only_http: forall k int :: 0 <= k && k < len(ret) ==> hasprefix(lower(ret[k]), "http")
+//@   ensures[C02,C03] every_http_responder_kept: (exists i int :: 0 <= i && i < len(ocspServerList) && hasprefix(lower(ocspServerList[i]), "http")) ==> len(ret) > 0
 //@   loop 1 invariant fresh(httpOcspUrls) || cap(httpOcspUrls) == 0
 //@   loop 1 invariant forall k int :: 0 <= k && k < len(httpOcspUrls) ==> hasprefix(lower(httpOcspUrls[k]), "http")
 //@   loop 1 invariant (exists i int :: 0 <= i && i <= $idx && hasprefix(lower(ocspServerList[i]), "http")) ==> len(httpOcspUrls) > 0
